@@ -221,7 +221,7 @@ def run_check(P, tier, seed, a):
         elif rec.get('raw_model') and smt.parse_values(rec['raw_model']):
             env, raw = smt.parse_values(rec['raw_model']), rec['raw_model']
         else:
-            env, raw = driver.get_model(b, rec['gi'], cap=(b.get('cap') or 60) if quick else 300)
+            env, raw = driver.get_model(b, rec['gi'], cap=(b.get('cap') or (60 if quick else 300)))
         if env is None and b.get('file') and not driver.declared_syms(open(b['file']).read()):
             env = {}     # the obligation has no free symbol (a concrete fact about this configuration): replayed as is
         if env is None:
@@ -239,7 +239,7 @@ def run_check(P, tier, seed, a):
             # model that violates it by a margin above the replay tolerance and replay that one
             mg = driver.margin_assert(rec['kind'], b['goals'][rec['gi']]['sides'], open(b['file']).read(), rel=job.get('margin_rel', '0.000001'))
             if mg:
-                env2, raw2 = driver.get_model(b, rec['gi'], extra_asserts=[mg], cap=(b.get('cap') or 60) if quick else 300)
+                env2, raw2 = driver.get_model(b, rec['gi'], extra_asserts=[mg], cap=(b.get('cap') or (60 if quick else 300)))
                 if env2:
                     env2.update(summaries[rec['job']]['paths'][rec['path']].get('choices', {}))
                     driver.write_vals(fn, env2, hdr + '\nmodel: violation by a margin above the replay tolerance')
